@@ -499,50 +499,9 @@ func checkC07(c *Ctx, r *Report) {
 	}
 
 	// ---- R4 accumulators
-	nAcc := 0
-	for _, f := range li.Fns {
-		pk := originPkgPath(f)
-		if pk != headersPkg && pk != "reservoir/utils/bytesize" && pk != proxyPkg && pk != "reservoir/utils/phc" && pk != "reservoir/utils" {
-			continue
-		}
-		eachInstr(f, func(in ssa.Instruction) {
-			mul, ok := in.(*ssa.BinOp)
-			if !ok || mul.Op != token.MUL {
-				return
-			}
-			k, isC := constInt(mul.Y)
-			phi, isPhi := mul.X.(*ssa.Phi)
-			if !isC || k != 10 || !isPhi {
-				return
-			}
-			if bt, ok := mul.Type().Underlying().(*types.Basic); !ok || bt.Info()&types.IsInteger == 0 {
-				return
-			}
-			// loop-carried: some edge of phi derives from mul
-			carried := false
-			for _, e := range phi.Edges {
-				if derivesFrom(e, func(v ssa.Value) bool { return v == ssa.Value(mul) }) {
-					carried = true
-				}
-			}
-			if !carried {
-				return
-			}
-			nAcc++
-			guarded := false
-			for _, fc := range factsAt(f, mul) {
-				if bo, ok := fc.cond.(*ssa.BinOp); ok {
-					switch bo.Op {
-					case token.LSS, token.LEQ, token.GTR, token.GEQ:
-						if unconvNum(bo.X) == ssa.Value(phi) || unconvNum(bo.Y) == ssa.Value(phi) {
-							guarded = true
-						}
-					}
-				}
-			}
-			r.Check(guarded, "C07.R4", fnKey(f)+": decimal accumulator "+phi.Comment, c.InstrPos(mul), "acc*10 is dominated by a bound comparison on acc inside the loop", "acc = acc*10 + digit without an overflow guard: a long digit string wraps around int64 and parses as a different, valid-looking number")
-		})
-	}
+	nAcc := checkAccumulators(c, r, li, "C07.R4", func(pk string) bool {
+		return pk == headersPkg || pk == "reservoir/utils/bytesize" || pk == proxyPkg || pk == "reservoir/utils/phc" || pk == "reservoir/utils"
+	})
 	r.Floor("C07.R4", nAcc, 2, "decimal accumulators (range number, byte size)")
 
 	// ---- R6
@@ -585,4 +544,53 @@ func checkC07(c *Ctx, r *Report) {
 		})
 		r.Floor("C07.R6", n, 2, "finalizeAndRespond calls in processRequest")
 	}
+}
+
+// checkAccumulators: loop-carried decimal accumulators (acc = acc*10 + digit) in the packages selected by inScope
+// must be guarded by a bound comparison on acc before the multiplication. Returns the number found.
+func checkAccumulators(c *Ctx, r *Report, li *LockInfo, rule string, inScope func(pkg string) bool) int {
+	nAcc := 0
+	for _, f := range li.Fns {
+		if !inScope(originPkgPath(f)) {
+			continue
+		}
+		eachInstr(f, func(in ssa.Instruction) {
+			mul, ok := in.(*ssa.BinOp)
+			if !ok || mul.Op != token.MUL {
+				return
+			}
+			k, isC := constInt(mul.Y)
+			phi, isPhi := mul.X.(*ssa.Phi)
+			if !isC || k != 10 || !isPhi {
+				return
+			}
+			if bt, ok := mul.Type().Underlying().(*types.Basic); !ok || bt.Info()&types.IsInteger == 0 {
+				return
+			}
+			// loop-carried: some edge of phi derives from mul
+			carried := false
+			for _, e := range phi.Edges {
+				if derivesFrom(e, func(v ssa.Value) bool { return v == ssa.Value(mul) }) {
+					carried = true
+				}
+			}
+			if !carried {
+				return
+			}
+			nAcc++
+			guarded := false
+			for _, fc := range factsAt(f, mul) {
+				if bo, ok := fc.cond.(*ssa.BinOp); ok {
+					switch bo.Op {
+					case token.LSS, token.LEQ, token.GTR, token.GEQ:
+						if unconvNum(bo.X) == ssa.Value(phi) || unconvNum(bo.Y) == ssa.Value(phi) {
+							guarded = true
+						}
+					}
+				}
+			}
+			r.Check(guarded, rule, fnKey(f)+": decimal accumulator "+phi.Comment, c.InstrPos(mul), "acc*10 is dominated by a bound comparison on acc inside the loop", "acc = acc*10 + digit without an overflow guard: a long digit string wraps around int64 and parses as a different, valid-looking number")
+		})
+	}
+	return nAcc
 }
